@@ -6,6 +6,8 @@ Table programs P (M: matrix-table programs):
   ['range'] ['keyby', P, [f..]] ['keyby_expr', P, [[f, E]..]] ['annotate', P, [[f, E]..]] ['select', P, [f..]] ['drop', P, [f..]]
   ['annotate_globals', P, [[f, E]..]] ['filter', P, E] ['join', P, P] ['rows', M] ['cols', M] ['entries', M]
   ['order_by', P, [[f | E, 'A' | 'A+' | 'D']..]]   t.order_by(f / expr, hl.asc(..), hl.desc(..))
+  ['union', P, [P..], unify]  ['semi_join', P, P]  ['anti_join', P, P]  ['join', P, P, how]
+  ['group_sum', P, [f..], f]   P.group_by(*keys).aggregate(s = hl.agg.sum(P.f))   (a downstream aggregation)
   ['mrange'] ['mannotate_rows' | 'mannotate_cols' | 'mannotate_entries' | 'mannotate_globals', M, [[f, E]..]]
   ['mkeyrows', M, [f..]] ['mkeycols', M, [f..]]
 Expressions E (in the context of the operation's input): those of c36_lang plus
@@ -82,6 +84,19 @@ def shape(P):
         pass
     elif k == 'order_by':
         s['key'] = []
+    elif k in ('semi_join', 'anti_join'):
+        pass
+    elif k == 'group_sum':
+        s = {'kind': 't', 'glob': s['glob'], 'row': list(P[2]) + ['s'], 'key': list(P[2]), 'iv': set()}
+    elif k == 'union':
+        if P[3]:
+            vals = [f for f in s['row'] if f not in s['key']]
+            for Q in P[2]:
+                q = shape(Q)
+                if q is None:
+                    return None
+                vals += [f for f in q['row'] if f not in q['key'] and f not in vals]
+            s['all_values'] = vals
     elif k == 'rows':
         s = {'kind': 't', 'glob': s['glob'], 'row': s['row'], 'key': s['rowkey'], 'iv': s['iv']}
     elif k == 'cols':
@@ -164,8 +179,17 @@ def to_coq(P, n):
         return 'PRange'
     if k == 'mrange':
         return 'PMRange'
-    if k in ('keyby_expr', 'join'):
+    if k in ('keyby_expr', 'join', 'semi_join', 'anti_join', 'group_sum'):
         raise OutsideModel(k)
+    if k == 'union':
+        if len(P[2]) != 1:
+            raise OutsideModel('union of more than two tables')
+        s, q = shape(P[1]), shape(P[2][0])
+        if s is None or q is None or s['kind'] != 't' or q['kind'] != 't':
+            raise OutsideModel('union operands')
+        if P[3] and sorted(f for f in s['row'] if f not in s['key']) != sorted(f for f in q['row'] if f not in q['key']):
+            raise OutsideModel('union(unify) with fields missing from a table')
+        return f'(PUnion {to_coq(P[1], n)} {to_coq(P[2][0], n)} {"true" if P[3] else "false"})'
     s = shape(P[1])
     if s is None:
         raise OutsideModel('unknown field')
@@ -285,6 +309,8 @@ def coq_to_rir(v, n):
     if k == 'MatrixMapCols':
         nk = v[3]
         return [[k, None if nk is None else [fb(f) for f in nk[1]]], [r(v[1]), _val_back(v[2], n)]]
+    if k == 'TableUnion':
+        return [[k], [r(v[1]), r(v[2])]]
     if k == 'TableLeftJoinRightDistinct':
         return [[k, fb(v[3])], [r(v[1]), r(v[2])]]
     if k in ('TableIntervalJoin', 'MatrixAnnotateRowsTable'):
@@ -408,6 +434,25 @@ def strict_rel(term):
         if val(cs[1], row_env(t)) != 'bool':
             raise IllTyped(k + ':predicate')
         return t
+    if k == 'TableUnion':                # TableIR.scala:2471 typ = childrenSeq(0).typ; TypeCheck.scala:686-688
+        ts = [tab(c, k) for c in cs]
+        for i, t in enumerate(ts[1:]):
+            if t['row'] != ts[0]['row']:
+                a, b = ts[0]['row'], t['row']
+                why = (':row-field-order' if sorted(map(str, a)) == sorted(map(str, b)) else
+                       ':row-field-types' if sorted(_names(a)) == sorted(_names(b)) else ':row-fields')
+                raise IllTyped(k + why)
+            if t['key'] != ts[0]['key']:
+                raise IllTyped(k + ':key')
+        return ts[0]
+    if k == 'TableKeyByAndAggregate':    # TableIR.scala:2542-2545: row = newKey.typ ++ expr.typ, key = the new key's names
+        t = tab(cs[0], k)
+        agg = _struct(val(cs[1], row_env(t)), k + ':expr-ill-typed')
+        key = _struct(val(cs[2], row_env(t)), k + ':key-ill-typed')
+        row = key + agg
+        if len(set(_names(row))) != len(row):
+            raise IllTyped(k + ':duplicate-field')
+        return {'kind': 't', 'glob': t['glob'], 'row': row, 'key': _names(key)}
     if k == 'TableOrderBy':              # TableIR.scala:2593  typ = child.typ.copy(key = FastSeq())
         t = tab(cs[0], k)
         if any(f not in _names(t['row']) for f, _ in h[1]):
@@ -623,6 +668,50 @@ class TGen:
             M = ['mkeycols', M, ck]
         return M, row, col, entry, rk, ck
 
+    def union(self):
+        """union of 2-3 tables over the same key: same / re-ordered / missing / numerically promotable / incompatible fields,
+        key field at another position; sometimes followed by a field access or an aggregation over a unified field"""
+        rng = self.rng
+        num = ['int32', 'int64', 'float64']
+        names = rng.sample(L.FIELDS, rng.randint(1, 3))
+        base = {f: rng.choice(TYPES) for f in names}
+        keyed = rng.random() < 0.3 and any(base[f] != 'bool' for f in names)
+        key = ['idx'] if not keyed else [rng.choice(names)]
+        mode = rng.choice(['same', 'reorder', 'promote', 'promote', 'promote', 'missing', 'clash', 'keypos'])
+        tabs = []
+        for i in range(rng.choice([2, 2, 2, 3])):
+            fs = dict(base)
+            order = list(names)
+            if i > 0:
+                if mode in ('reorder', 'promote', 'missing') and rng.random() < 0.6:
+                    rng.shuffle(order)
+                if mode == 'promote':
+                    for f in order:
+                        if fs[f] in num and f not in key and rng.random() < 0.7:
+                            fs[f] = rng.choice(num)
+                if mode == 'missing' and len(order) > 1:
+                    order = [f for f in order if f in key or rng.random() < 0.6] or order[:1]
+                if mode == 'clash':
+                    f = rng.choice(order)
+                    fs[f] = 'str' if fs[f] != 'str' else 'int32'
+            P = ['annotate', ['range'], [[f, self.expr(fs[f], {'idx': 'int32'}, d=1)] for f in order]]
+            if keyed:
+                P = ['keyby', P, key]
+                if mode == 'keypos' and i > 0:
+                    P = ['select', P, [f for f in ['idx'] + order if f not in key]]
+            tabs.append(P)
+        unify = mode != 'same' or rng.random() < 0.5
+        if mode in ('reorder', 'promote') and rng.random() < 0.1:
+            unify = False
+        U = ['union', tabs[0], tabs[1:], unify]
+        nums = [f for f in names if base[f] in num and f not in key]
+        r = rng.random()
+        if r < 0.25 and nums:
+            return ['annotate', U, [['z', ['arith', '+', ['rf', rng.choice(nums)], ['litint', 1]]]]]
+        if r < 0.5 and nums:
+            return ['group_sum', U, key, rng.choice(nums)]
+        return U
+
     def sort_fields(self, fields, key):
         """order_by arguments: an ascending prefix of the key, the whole key, descending / non-key fields, none, computed"""
         rng = self.rng
@@ -671,8 +760,16 @@ class TGen:
 
     def program(self):
         rng = self.rng
-        fam = rng.choice(['chain', 'chain', 'lookup', 'lookup', 'lookup', 'ivlookup', 'ivlookup', 'ivlookup', 'mchain', 'mlookup', 'mlookup',
+        fam = rng.choice(['union', 'union', 'union', 'semi', 'chain', 'chain', 'lookup', 'lookup', 'lookup', 'ivlookup', 'ivlookup', 'ivlookup', 'mchain', 'mlookup', 'mlookup',
                           'mivlookup', 'mivlookup', 'msource', 'join'])
+        if fam == 'union':
+            return self.union()
+        if fam == 'semi':
+            A, af, ak = self.table()
+            B = ['keyby', ['annotate', ['range'], [['z', ['litint', 1]]] + [[k, self.expr(af[k], {'idx': 'int32'})] for k in ak if k != 'idx']], list(ak)]
+            if rng.random() < 0.2:
+                B = self.table()[0]
+            return [rng.choice(['semi_join', 'anti_join']), A, B]
         if fam == 'chain':
             P, fields, key = self.table()
             for _ in range(rng.randint(1, 3)):
